@@ -310,7 +310,7 @@ impl Counters {
 /// A collection of tables and indexes over them.
 ///
 /// A database also owns the memory pools used by its tables.
-#[derive(Clone, Default)]
+#[derive(Default)]
 pub struct Database {
     // NB: some fields are pub(crate) to allow some internal modules to avoid
     // borrowing the whole table.
@@ -333,6 +333,24 @@ pub struct Database {
     /// This is primarily used to determine whether or not to attempt to do some operations in
     /// parallel.
     total_size_estimate: usize,
+}
+
+impl Clone for Database {
+    fn clone(&self) -> Self {
+        Database {
+            tables: self.tables.clone(),
+            counters: self.counters.clone(),
+            external_functions: self.external_functions.clone(),
+            container_values: self.container_values.clone(),
+            // Each database needs its own list: with a shared one, a `merge_all` on either copy
+            // consumes the notifications of the other, whose staged rows are then skipped by
+            // its own next `merge_all`.
+            notification_list: self.notification_list.detached_copy(),
+            deps: self.deps.clone(),
+            base_values: self.base_values.clone(),
+            total_size_estimate: self.total_size_estimate,
+        }
+    }
 }
 
 impl Database {
